@@ -328,6 +328,37 @@ pub fn check_buffer(ctx: &mut Ctx, buf: &[u8], o: &Opts) -> Outcome {
             ctx.count("header-vs-parser-compared");
         }
     }
+    // the TryFrom entry points are the same decoders under another name: same verdict, same error
+    if let Ok(full) = &r {
+        let alt = guard(|| <Message as TryFrom<&[u8]>>::try_from(buf).map(|m| (m.get_type().class() as u8, m.method(), imp::tid_to_bytes(m.transaction_id()))));
+        let want = full.as_ref().map(|m| (m.get_type().class() as u8, m.method(), imp::tid_to_bytes(m.transaction_id()))).map_err(|e| format!("{e:?}"));
+        match alt {
+            Err(p) => ctx.violation("C01", "no-panic", "Message::try_from", "", || w("Message::try_from"), "value or error".into(), format!("panic: {} at {}", p.msg, p.loc)),
+            Ok(a) => {
+                let a = a.map_err(|e| format!("{e:?}"));
+                if a != want {
+                    let truncated = matches!(full, Err(StunParseError::Truncated { .. }));
+                    ctx.violation(
+                        if truncated { "C17" } else { "C02" },
+                        "try-from-agrees-with-from-bytes",
+                        "Message::try_from",
+                        if truncated { "truncated" } else { "" },
+                        || w("Message::try_from"),
+                        format!("{want:?}"),
+                        format!("{a:?}"),
+                    );
+                }
+            }
+        }
+        if buf.len() >= 2 {
+            let a = guard(|| (<MessageType as TryFrom<&[u8]>>::try_from(buf).map(|t| t.to_bytes()).ok(), MessageType::from_bytes(buf).map(|t| t.to_bytes()).ok()));
+            if let Ok((x, y)) = a {
+                if x != y {
+                    ctx.violation("C19", "try-from-agrees-with-from-bytes", "MessageType::try_from", "", || w("MessageType::try_from"), format!("{y:?}"), format!("{x:?}"));
+                }
+            }
+        }
+    }
     let msg = match r {
         Err(p) => {
             out.impl_panicked = true;
@@ -945,6 +976,25 @@ pub fn check_buffer(ctx: &mut Ctx, buf: &[u8], o: &Opts) -> Outcome {
                                         wv,
                                         format!("Err: the last exposed integrity attribute is not correct; reference: {:?}", ri.attrs),
                                         format!("Ok({algo:?})"),
+                                    );
+                                }
+                            }
+                            // C10: "every exposed attribute ... lies inside the byte range covered by the HMAC
+                            // that validate_integrity checks".  Validation succeeded, so the HMAC it checked
+                            // must be the one over everything before the exposed integrity attribute of that
+                            // algorithm: if the reference says that attribute's HMAC is wrong, what was checked
+                            // covers something else and exposed attributes lie outside it.
+                            if let Some(ia) = rp.attrs.iter().find(|a| a.ty == ty) {
+                                let exposed_ordinary_before = ref_exposed_idx.iter().map(|i| &rp.attrs[*i]).any(|a| a.ty != MI && a.ty != MI256 && a.ty != FP && a.off < ia.off);
+                                if !ri.correct(ty) && exposed_ordinary_before {
+                                    ctx.violation(
+                                        "C10",
+                                        "exposed-covered-by-validated-hmac",
+                                        "Message::validate_integrity",
+                                        &tail_shape(buf, &rp.attrs),
+                                        wv,
+                                        format!("Err: the HMAC over the bytes before the exposed {} at offset {} is not the one in the message", if ty == MI { "MESSAGE-INTEGRITY" } else { "MESSAGE-INTEGRITY-SHA256" }, ia.off),
+                                        format!("Ok({algo:?}) with exposed attributes [{}]", fmt_seq(&exposed)),
                                     );
                                 }
                             }
